@@ -98,4 +98,49 @@ IntervalDistances(a1, a2, b1, b2) ==
            i2 == IF bInA THEN b2 ELSE a2
        IN IF o1 < i1 /\ i2 < o2 THEN {-Min2(i1 - o1, o2 - i2)}             \* strictly inside: the shorter part
           ELSE {0, -common}                                                 \* shared end point (see above)
+
+(* ---- extension round ------------------------------------------------------------- *)
+(* interval_distance, exactly what its documentation promises for non-empty intervals
+   [a1,a2), [b1,b2)  (math/interval_distance.hpp):
+     "Distance can be zero if the intervals touch, or negative if they overlap."
+     "If they only partially overlap, the distance is negative the common length where they
+      overlap."
+     "If one completely contains the other, the "outer" interval is split in two parts by the
+      "inner" one. In this case, the (again negative) length of the shorter part is returned.
+      Therefore the distance is zero if the inner interval touches the outer one."
+   "only partially overlap" excludes containment, so the containment clause also governs nested
+   intervals that share an end point (shorter part = 0) and equal intervals (both parts 0). *)
+IntervalDistanceDoc(a1, a2, b1, b2) ==
+  IF a2 <= b1 \/ b2 <= a1 THEN Max2(b1 - a2, a1 - b2)
+  ELSE IF a1 <= b1 /\ b2 <= a2 THEN -Min2(b1 - a1, a2 - b2)       \* b inside a
+  ELSE IF b1 <= a1 /\ a2 <= b2 THEN -Min2(a1 - b1, b2 - a2)       \* a inside b
+  ELSE -(Min2(a2, b2) - Max2(a1, b1))
+NestedTouching(a1, a2, b1, b2) ==
+  /\ ~(a2 <= b1 \/ b2 <= a1)
+  /\ ((a1 <= b1 /\ b2 <= a2) \/ (b1 <= a1 /\ a2 <= b2))
+  /\ (a1 = b1 \/ a2 = b2)
+
+(* transcription of the function body.  Old = TRUE: the code before fixes/C13_interval_distance_
+   nested_touching.diff (swap on i1_second <= i2_second, first branch on i2_first <= i1_first);
+   Old = FALSE: the repaired code (i1 is made the interval with the larger upper end, or with the
+   smaller lower end when the upper ends are equal; first branch on i2_first < i1_first). *)
+IntervalDistanceImpl(a1, a2, b1, b2, Old) ==
+  LET sw == IF Old THEN a2 <= b2 ELSE (a2 < b2 \/ (a2 = b2 /\ b1 < a1))
+      f1 == IF sw THEN b1 ELSE a1
+      s1 == IF sw THEN b2 ELSE a2
+      f2 == IF sw THEN a1 ELSE b1
+      s2 == IF sw THEN a2 ELSE b2
+      first == IF Old THEN f2 <= f1 ELSE f2 < f1
+  IN IF first THEN f1 - s2 ELSE Max2(s2 - s1, f1 - f2)
+
+(* text forms: vector / dim "(a_1,a_2,...)" (math/vector/output.hpp, math/dim/output.hpp), box
+   "(position,size)" (math/box/output.hpp); code points, compared without spaces *)
+RECURSIVE NatDigitsB(_)
+NatDigitsB(n) == IF n < 10 THEN <<48 + n>> ELSE NatDigitsB(n \div 10) \o <<48 + (n % 10)>>
+IntTextB(v) == IF v < 0 THEN <<45>> \o NatDigitsB(-v) ELSE NatDigitsB(v)
+RECURSIVE JoinCommaB(_)
+JoinCommaB(ss) == IF ss = <<>> THEN <<>> ELSE IF Len(ss) = 1 THEN ss[1] ELSE ss[1] \o <<44>> \o JoinCommaB(Tail(ss))
+TupleText(v) == <<40>> \o JoinCommaB([i \in Idx(v) |-> IntTextB(v[i])]) \o <<41>>
+BoxText(b) == <<40>> \o TupleText(b.pos) \o <<44>> \o TupleText(Size(b)) \o <<41>>
+NoSpacesB(s) == SelectSeq(s, LAMBDA c : c # 32)
 =============================================================================
